@@ -36,3 +36,10 @@ e3("C10", "Bounded symbolic execution of the real coverage code through the publ
           "bin's hit count equals the number of gated samples in the reference value set (independent partition function). "
           "RangelistModel.compact/intersect are additionally decided with symbolic endpoints.",
    "symbolic execution of the real Python code with z3 (all sample values), enumerated bin specifications, independent partition oracle", "DESIGN.md section 6 C10")
+
+e3("C11", "Bounded symbolic execution of the real cross-coverage code through the public API: sample values of 2..3 coverpoints and the iff "
+          "values of the cross and the coverpoints are symbolic over sample sequences (1 sample for every layout pair, 2..3-sample sequences on "
+          "targeted layouts so that stale hit markers / iff caches are reachable); z3 shows each cross bin's count equals the number of samples "
+          "whose gating conditions hold and whose value combination lies in that bin combination; bin count, order and names follow the "
+          "coverpoints' bins. Bin layouts are enumerated.",
+   "symbolic execution of the real Python code with z3 (all sample/iff values, sample sequences), enumerated bin layouts", "DESIGN.md section 6 C11")
